@@ -4,14 +4,17 @@ ONLY property theorems, non-vacuity examples and witnesses live here; helper lem
 Proofs/Lemmas/Store.lean.  Model: Pywbem/Model/Store.lean (mirrors the code after the `fix:` commits),
 reference map: Pywbem/Model/StoreSpec.lean.
 
-Full statement of the refinement (proved here for schemas without association classes; for
-association classes – including instances living in several namespaces – the same equation is
-checked at run time by the driver on every history of K, field "specAgrees"):
+Full statement of the refinement (proved here under `TameRun`: no association classes, or association
+requests whose reference values stay inside the request namespace; for association instances living
+in several namespaces the same equation is checked at run time by the driver on every history of K,
+field "specAgrees"):
 
     ∀ r ops, Fresh r →
       (run r ops).2.map normOut = (StoreSpec.run (abs r) ops).2 ∧ abs (run r ops).1 = (StoreSpec.run (abs r) ops).1
 -/
 import Proofs.Lemmas.Store
+
+set_option linter.unusedSimpArgs false
 
 namespace C10
 open Pywbem.Proto Pywbem.Model.Store Pywbem.Model.StoreSpec Pywbem.Generated.Store Proofs.Store
@@ -21,36 +24,43 @@ structure Fresh (r : Repo) : Prop where
   nsUniq : NsUnique r
   empty : ∀ e ∈ r.nss, e.insts = []
 
-/-- **Refinement (partial: schemas without association classes).**  For every history of Create / Modify /
-    Delete / Get / EnumerateInstances / EnumerateInstanceNames requests – valid or not, any namespaces, any
-    paths – the outcomes of the model, with paths normalised (names lower-cased, keybindings sorted), are the
-    outcomes of the reference map, and the final store is the final reference map. -/
-theorem C10_refines_spec_partial (r : Repo) (ops : List Op) (hf : Fresh r) (hna : NoAssoc r) :
+/-- **Refinement (partial).**  For every history of Create / Modify / Delete / Get / EnumerateInstances /
+    EnumerateInstanceNames requests – valid or not, any namespaces, any paths – the outcomes of the model, with
+    paths normalised (names lower-cased, keybindings sorted), are the outcomes of the reference map, and the
+    final store is the final reference map.
+    Partial = hypothesis `TameRun`: the schema has no association classes (then the requests are arbitrary), or
+    reference properties have NULL defaults and the reference values in the Create/Modify requests are paths
+    or NULL and name no other namespace than the request's (association end-point validation included,
+    instances living in several namespaces excluded). -/
+theorem C10_refines_spec_partial (r : Repo) (ops : List Op) (hf : Fresh r) (ht : TameRun r ops) :
     (Pywbem.Model.Store.run r ops).2.map normOut = (Pywbem.Model.StoreSpec.run (abs r) ops).2
       ∧ abs (Pywbem.Model.Store.run r ops).1 = (Pywbem.Model.StoreSpec.run (abs r) ops).1 := by
-  have h := sim_run ops r hna (inv_empty r hf.nsUniq hf.empty)
+  have h := sim_run' ops r ht (inv_empty r hf.nsUniq hf.empty)
   exact ⟨h.1, h.2.1⟩
 
 /-- one step of the same statement, from any state satisfying the store invariant -/
-theorem C10_step_refines_spec_partial (r : Repo) (op : Op) (hna : NoAssoc r) (hinv : Inv r) :
+theorem C10_step_refines_spec_partial (r : Repo) (op : Op) (ht : Tame r op) (hinv : Inv r) :
     normOut (step r op).2 = (sstep (abs r) op).2 ∧ abs (step r op).1 = (sstep (abs r) op).1 := by
-  have h := sim_step r op hna hinv
+  have h := sim_step' r op ht hinv
   exact ⟨h.1, h.2.1⟩
 
-/-- **Keys are unique and consistent (partial: schemas without association classes).**  After any history, in
-    every namespace: no two stored instances have equal keys (up to case and order); the path kept inside a
-    stored instance equals the key it is stored under; the key carries no host and names the namespace it is
-    stored in; the instance has every key property of its creation class. -/
-theorem C10_store_invariant_partial (r : Repo) (ops : List Op) (hf : Fresh r) (hna : NoAssoc r) :
+/-- **Keys are unique and consistent (partial, same hypothesis).**  After any history, in every namespace: no two
+    stored instances have equal keys (up to case and order); the path kept inside a stored instance equals the
+    key it is stored under; the key carries no host and names the namespace it is stored in; the instance has
+    every key property of its creation class; association instances reference their own namespace only. -/
+theorem C10_store_invariant_partial (r : Repo) (ops : List Op) (hf : Fresh r) (ht : TameRun r ops) :
     ∀ e ∈ (Pywbem.Model.Store.run r ops).1.nss,
       e.insts.Pairwise (fun a b => normPath a.key ≠ normPath b.key) ∧
       (∀ s ∈ e.insts, normPath s.path = normPath s.key ∧ s.key.host = none ∧
         s.key.ns.map lower = some (lower e.name) ∧ lower s.inst.cls = lower s.key.cls ∧
-        ∀ c, findCls e.classes s.key.cls = some c → ∀ d ∈ keyDecls c, (findProp s.inst.props d.name).isSome = true) := by
-  have h := (sim_run ops r hna (inv_empty r hf.nsUniq hf.empty)).2.2
+        ∀ c, findCls e.classes s.key.cls = some c →
+          (∀ d ∈ keyDecls c, (findProp s.inst.props d.name).isSome = true) ∧
+          (c.isAssoc = true → multiNs s.inst.props e.name = [])) := by
+  have h := (sim_run' ops r ht (inv_empty r hf.nsUniq hf.empty)).2.2
   intro e he
   have hi := h.entries e he
-  exact ⟨hi.uniq, fun s hs => ⟨hi.pathKey s hs, hi.hostNone s hs, hi.nsOk s hs, hi.instCls s hs, hi.hasKeys s hs⟩⟩
+  exact ⟨hi.uniq, fun s hs => ⟨hi.pathKey s hs, hi.hostNone s hs, hi.nsOk s hs, hi.instCls s hs,
+    fun c hc => ⟨hi.hasKeys s hs c hc, hi.localRefs s hs c hc⟩⟩⟩
 
 /-- non-vacuity of the hypotheses: a two-namespace repository with a key class -/
 def demoCls : Cls :=
@@ -61,11 +71,46 @@ def demoRepo : Repo :=
   { nss := [{ name := "root/a".toList, classes := [demoCls], insts := [] },
             { name := "Root/B".toList, classes := [demoCls], insts := [] }], dflt := "root/a".toList }
 
-example : Fresh demoRepo ∧ NoAssoc demoRepo := by
-  refine ⟨⟨?_, ?_⟩, ?_⟩
+example : Fresh demoRepo ∧ NoAssoc demoRepo ∧ ∀ ops, TameRun demoRepo ops := by
+  have hna : NoAssoc demoRepo := by
+    intro e he c hc; simp [demoRepo] at he; rcases he with rfl | rfl <;> simp at hc <;> subst hc <;> rfl
+  refine ⟨⟨?_, ?_⟩, hna, fun _ => Or.inl hna⟩
   · unfold NsUnique demoRepo; decide
   · intro e he; simp [demoRepo] at he; rcases he with rfl | rfl <;> rfl
-  · intro e he c hc; simp [demoRepo] at he; rcases he with rfl | rfl <;> simp at hc <;> subst hc <;> rfl
+
+/-- non-vacuity of the association branch of `TameRun`: an association class, and a request creating an
+    association between two instances of the request namespace -/
+def demoAssoc : Cls :=
+  { name := "TST_L".toList, super := none, isAssoc := true,
+    props := [{ name := "parent".toList, ty := "reference".toList, isArr := false, isKey := true, dflt := .null },
+              { name := "child".toList, ty := "reference".toList, isArr := false, isKey := true, dflt := .null }] }
+def demoRepoA : Repo :=
+  { nss := [{ name := "root/a".toList, classes := [demoCls, demoAssoc], insts := [] }], dflt := "root/a".toList }
+def demoEnd (k : String) : Val :=
+  .one (.ref { cls := "TST_P".toList, ns := some "ROOT/A".toList, host := none, keys := [("name".toList, .str k.toList)] })
+def demoCreateAssoc : Op :=
+  .create none { cls := "TST_L".toList,
+                 props := [{ name := "parent".toList, ty := "reference".toList, isArr := false, val := demoEnd "x" },
+                           { name := "child".toList, ty := "reference".toList, isArr := false, val := demoEnd "y" }] }
+
+example : Fresh demoRepoA ∧ ¬ NoAssoc demoRepoA ∧ TameRun demoRepoA [demoCreateAssoc] := by
+  refine ⟨⟨?_, ?_⟩, ?_, Or.inr ⟨?_, ?_⟩⟩
+  · unfold NsUnique demoRepoA; decide
+  · intro e he; simp [demoRepoA] at he; subst he; rfl
+  · intro h
+    have := h { name := "root/a".toList, classes := [demoCls, demoAssoc], insts := [] } (by simp [demoRepoA])
+      demoAssoc (by simp)
+    simp [demoAssoc] at this
+  · intro e he c hc d hd hty
+    simp [demoRepoA] at he; subst he
+    simp at hc
+    rcases hc with rfl | rfl <;> simp [demoCls, demoAssoc] at hd <;> rcases hd with rfl | rfl <;> first | rfl | (simp [tyReference] at hty)
+  · intro op hop
+    simp at hop; subst hop
+    refine ⟨?_, by decide⟩
+    intro p hp _
+    simp [demoCreateAssoc] at hp
+    rcases hp with rfl | rfl <;> exact Or.inr ⟨_, rfl⟩
 
 /-- **Enumerations never fail on a stored instance.**  In every state satisfying the store invariant,
     EnumerateInstances answers INVALID_NAMESPACE, INVALID_CLASS or a list – never NOT_FOUND (the failure the
@@ -163,5 +208,116 @@ theorem C10_get_case_insensitive (r : Repo) (p q : Path) (pl : Option (List Name
   cases sFindNs (abs r) (q.ns.getD r.dflt) with
   | none => rfl
   | some e => simp only [findCls_congr e.classes hcls]
+
+/-! ### the map laws (schemas without association classes) -/
+
+/-- **Get after Create.**  After a successful CreateInstance, GetInstance on the returned path answers the
+    created instance: same class name, the returned path, and the same properties (names up to lexical
+    case – they take the case of the class declaration –, types, arrayness and values unchanged), filtered
+    by the PropertyList. -/
+theorem C10_create_then_get_partial (r r' : Repo) (nsArg : Option Name) (inst : Inst) (p : Path)
+    (pl : Option (List Name)) (hna : NoAssoc r) (h : stepCreate r nsArg inst = (r', .path p)) :
+    ∃ ps, (stepGet r' p pl).2 = .inst { cls := inst.cls, path := p, props := filterProps pl ps } ∧
+      ps.map (fun q => (lower q.name, q.ty, q.isArr, q.val)) =
+        inst.props.map (fun q => (lower q.name, q.ty, q.isArr, q.val)) := by
+  obtain ⟨c, hc⟩ := get_after_create pl hna h
+  refine ⟨adjustNames c inst.props, hc, ?_⟩
+  unfold adjustNames
+  rw [List.map_map]
+  apply List.map_congr_left
+  intro q _
+  have := adjustName_same c q
+  simp [Function.comp, this.1, this.2.1, this.2.2.1, this.2.2.2]
+
+/-- **Create twice.**  Repeating a successful CreateInstance is refused with ALREADY_EXISTS and changes nothing. -/
+theorem C10_create_twice_already_exists_partial (r r' : Repo) (nsArg : Option Name) (inst : Inst) (p : Path)
+    (hna : NoAssoc r) (h : stepCreate r nsArg inst = (r', .path p)) :
+    stepCreate r' nsArg inst = (r', errExists) :=
+  create_twice hna h
+
+/-- **Get after Delete.**  After a successful DeleteInstance, GetInstance on the same path answers NOT_FOUND. -/
+theorem C10_delete_then_get_not_found_partial (r r' : Repo) (path : Path) (pl : Option (List Name))
+    (hna : NoAssoc r) (h : stepDelete r path = (r', .unit)) :
+    (stepGet r' path pl).2 = errNotFound :=
+  get_after_delete pl hna h
+
+/-- **Delete touches one key only.**  GetInstance on any path with a different key – another namespace,
+    another class, other keybindings; compared in normal form – answers after the DeleteInstance what it
+    answered before. -/
+theorem C10_delete_frame_partial (r r' : Repo) (path q : Path) (pl : Option (List Name)) (hna : NoAssoc r)
+    (h : stepDelete r path = (r', .unit))
+    (hne : keyIn q (effNs r q.ns) ≠ keyIn path (effNs r path.ns)) :
+    (stepGet r' q pl).2 = (stepGet r q pl).2 :=
+  get_frame_delete pl hna h hne
+
+/-! ### only documented status codes -/
+
+/-- **Only documented errors (partial, hypothesis `TameRun` as above).**  Every outcome of every history
+    is a result, one of CIM_ERR_INVALID_NAMESPACE / INVALID_PARAMETER / INVALID_CLASS / NOT_FOUND /
+    ALREADY_EXISTS – or `TypeError`, which by the next theorem needs an array- or embedded-object-valued
+    property in a CreateInstance (it escapes only when that is a *key* property, which no valid schema declares). -/
+theorem C10_only_documented_errors_partial (r : Repo) (ops : List Op) (hf : Fresh r) (ht : TameRun r ops) :
+    ∀ o ∈ (Pywbem.Model.Store.run r ops).2, Documented o := by
+  intro o ho
+  have h := (sim_run' ops r ht (inv_empty r hf.nsUniq hf.empty)).1
+  have : normOut o ∈ (Pywbem.Model.StoreSpec.run (abs r) ops).2 := by
+    rw [← h]; exact List.mem_map_of_mem ho
+  exact documented_normOut (srun_documented ops (abs r) _ this)
+
+theorem C10_type_error_needs_nonscalar_value_partial (r : Repo) (op : Op) (ht : Tame r op) (hinv : Inv r)
+    (h : (step r op).2 = .err .typeError) :
+    ∃ ns inst, op = .create ns inst ∧ ∃ p ∈ inst.props, notScalar p.val = true := by
+  have hs := (sim_step' r op ht hinv).1
+  rw [h] at hs
+  simp only [normOut] at hs
+  cases op with
+  | create ns i => exact ⟨ns, i, rfl, specCreate_typeError hs.symm⟩
+  | modify p i pl =>
+    exfalso
+    simp only [sstep] at hs
+    unfold specModify at hs
+    simp only [] at hs
+    repeat' split at hs
+    all_goals simp [errNs, errClass, errParam, errNotFound] at hs
+  | delete p =>
+    exfalso
+    simp only [sstep] at hs
+    unfold specDelete at hs
+    simp only [] at hs
+    repeat' split at hs
+    all_goals simp [errNs, errClass, errParam, errNotFound] at hs
+  | get p pl =>
+    exfalso
+    simp only [sstep] at hs
+    unfold specGet at hs
+    simp only [] at hs
+    repeat' split at hs
+    all_goals simp [errNs, errClass, errParam, errNotFound] at hs
+  | enumInsts ns c di pl =>
+    exfalso
+    simp only [sstep] at hs
+    unfold specEnumInsts at hs
+    simp only [] at hs
+    repeat' split at hs
+    all_goals simp [errNs, errClass, errParam, errNotFound] at hs
+  | enumNames ns c =>
+    exfalso
+    simp only [sstep] at hs
+    unfold specEnumNames at hs
+    simp only [] at hs
+    repeat' split at hs
+    all_goals simp [errNs, errClass, errParam, errNotFound] at hs
+
+/-- the TypeError is real: a class with an array-valued key property (a malformed schema) -/
+def badCls : Cls :=
+  { name := "BAD".toList, super := none, isAssoc := false,
+    props := [{ name := "k".toList, ty := "string".toList, isArr := true, isKey := true, dflt := .null }] }
+def badRepo : Repo := { nss := [{ name := "root/a".toList, classes := [badCls], insts := [] }], dflt := "root/a".toList }
+
+def badInst : Inst :=
+  { cls := "BAD".toList, props := [{ name := "k".toList, ty := "string".toList, isArr := true, val := Val.arr [] }] }
+
+theorem C10_type_error_witness : (stepCreate badRepo none badInst).2 = .err .typeError := by
+  decide
 
 end C10
